@@ -100,12 +100,24 @@ def init (cfg : FenceCfg) (n : Int) : St :=
     A := [], lb := n / 2, lt := n / 2, tr := false, flO := none, flT := none, retd := [], ins := [] }
 
 /-- newest buffered value of `top`, else the given (memory) value -/
-def viewTop (buf : List Sto) (m : Int) : Int :=
-  buf.foldl (fun acc st => match st with | .top v => v | _ => acc) m
-def viewBase (buf : List Sto) (m : Int) : Int :=
-  buf.foldl (fun acc st => match st with | .base v => v | _ => acc) m
-def viewPtr (buf : List Sto) (m : Int → Option Elem) (i : Int) : Option Elem :=
-  buf.foldl (fun acc st => match st with | .ptr j x => if j = i then x else acc | _ => acc) (m i)
+def viewTop : List Sto → Int → Int
+  | [], m => m
+  | .top v :: r, _ => viewTop r v
+  | .base _ :: r, m => viewTop r m
+  | .ptr _ _ :: r, m => viewTop r m
+  | .unlock :: r, m => viewTop r m
+def viewBase : List Sto → Int → Int
+  | [], m => m
+  | .base v :: r, _ => viewBase r v
+  | .top _ :: r, m => viewBase r m
+  | .ptr _ _ :: r, m => viewBase r m
+  | .unlock :: r, m => viewBase r m
+def viewPtr : List Sto → (Int → Option Elem) → Int → Option Elem
+  | [], m, i => m i
+  | .ptr j x :: r, m, i => viewPtr r (upd m j x) i
+  | .top _ :: r, m, i => viewPtr r m i
+  | .base _ :: r, m, i => viewPtr r m i
+  | .unlock :: r, m, i => viewPtr r m i
 
 /-- drain one store into memory (ghost `tr` follows the memory value of `base`) -/
 def applySto (s : St) : Sto → St
